@@ -696,6 +696,31 @@ pub fn family(tier: Tier) -> Vec<Spec> {
             }
         }
     }
+    // SEVERAL SKIPS with different default priorities next to a competitor whose explicit priority
+    // sweeps through them (each skip is a leaf of its own with its own priority; on a tie in length
+    // the competitor wins or loses against each of them separately), both declaration orders
+    {
+        let skips = ["a+", "[ab]", "ab", "a|bc", "[a-c]{2}", "ba*", "/[a-z]*", "/+x?"];
+        let comps = ["a", "ab", "[ab]+", "a+b?", "/+", "/a"];
+        for (i, s1) in skips.iter().enumerate() {
+            for (j, s2) in skips.iter().enumerate() {
+                if i == j {
+                    continue;
+                }
+                for (k, c) in comps.iter().enumerate() {
+                    for p in 1..=6usize {
+                        if tier != Tier::Thorough && (i + j + k + p) % 3 != 0 {
+                            continue;
+                        }
+                        specs.push(Spec::new(true, vec![Pat::skip(s1), Pat::skip(s2), Pat::regex(c).prio(p)]));
+                        specs.push(Spec::new(true, vec![Pat::regex(c).prio(p), Pat::skip(s1), Pat::skip(s2), Pat::token("zz")]));
+                    }
+                }
+                // three skips and a default-priority token
+                specs.push(Spec::new(true, vec![Pat::skip(s1), Pat::skip(s2), Pat::skip("[a-z]"), Pat::token("ab")]));
+            }
+        }
+    }
     // dedupe
     let mut seen = std::collections::HashSet::new();
     specs.retain(|s| seen.insert(s.clone()));
